@@ -195,6 +195,56 @@ fn decode<'tcx>(
                 .collect();
             J::obj().set("struct", J::Arr(v))
         }
+        ty::Adt(def, args) if def.is_enum() => {
+            // data-carrying enum (Option<T>, Result<..>, crate enums with payloads): find the variant through the layout
+            use rustc_abi::{TagEncoding, VariantIdx, Variants};
+            let vi: Option<VariantIdx> = match &layout.variants {
+                Variants::Single { index } => Some(*index),
+                Variants::Empty => None,
+                Variants::Multiple { tag, tag_encoding, tag_field, .. } => {
+                    let toff = layout.fields.offset(tag_field.as_usize()).bytes();
+                    let tsize = tag.size(&tcx).bytes();
+                    let mask: u128 = if tsize >= 16 { u128::MAX } else { (1u128 << (8 * tsize)) - 1 };
+                    let bits = read_bytes(tcx, a, off + toff, tsize).map(|b| le(&b));
+                    match tag_encoding {
+                        TagEncoding::Direct => bits.and_then(|bits| {
+                            def.discriminants(tcx).find(|(_, d)| (d.val & mask) == (bits & mask)).map(|(vi, _)| vi)
+                        }),
+                        TagEncoding::Niche { untagged_variant, niche_variants, niche_start } => match bits {
+                            None => Some(*untagged_variant),
+                            Some(bits) => {
+                                let rel = bits.wrapping_sub(*niche_start) & mask;
+                                let count = (niche_variants.end().as_u32() - niche_variants.start().as_u32()) as u128;
+                                if rel <= count {
+                                    Some(VariantIdx::from_u32(niche_variants.start().as_u32() + rel as u32))
+                                } else {
+                                    Some(*untagged_variant)
+                                }
+                            }
+                        },
+                    }
+                }
+            };
+            let Some(vi) = vi else { return J::Null };
+            let cx = ty::layout::LayoutCx::new(tcx, env);
+            let vl = layout.for_variant(&cx, vi);
+            let v = def.variant(vi);
+            let fields: Vec<J> = v
+                .fields
+                .iter()
+                .enumerate()
+                .map(|(i, f)| {
+                    let ft = f.ty(tcx, args);
+                    J::obj()
+                        .set("tyt", ty_tree(tcx, ft, 0))
+                        .set("val", decode(tcx, env, ft, a, off + vl.fields.offset(i).bytes(), depth + 1))
+                })
+                .collect();
+            J::obj()
+                .set("enum", J::Str(v.name.to_string()))
+                .set("vi", J::UInt(vi.as_u32() as u128))
+                .set("fields", J::Arr(fields))
+        }
         _ => J::Null,
     }
 }
